@@ -377,7 +377,7 @@ void DecodeMotoDFS(Word Index) {
         Boolean      OK;
         tSymbolFlags Flags;
 
-        HVal16 = EvalStrIntExpressionWithFlags(&ArgStr[1], Int16, &OK, &Flags);
+        HVal16 = EvalStrIntExpressionWithFlags(&ArgStr[1], UInt16, &OK, &Flags);
         if (mFirstPassUnknown(Flags)) {
             WrError(ErrNum_FirstPassCalc);
         } else if (OK) {
@@ -1016,7 +1016,10 @@ Boolean DecodeMoto16Pseudo(tSymbolSize OpSize, Boolean Turn) {
             if (mFirstPassUnknown(Flags)) {
                 WrError(ErrNum_FirstPassCalc);
             }
-            if (ValOK && !mFirstPassUnknown(Flags)) {
+            if (ValOK && !mFirstPassUnknown(Flags) && (HVal < 0)) {
+                /* would move the program counter back into code already written */
+                WrStrErrorPos(ErrNum_UnderRange, &ArgStr[1]);
+            } else if (ValOK && !mFirstPassUnknown(Flags)) {
                 Boolean OddSize
                         = (eSymbolSize8Bit == OpSize) || (eSymbolSize24Bit == OpSize);
 
